@@ -4,6 +4,8 @@ Cases
   c09rt <css|scss> <hex src>    harness: expanded output of `src`, and the expanded output of that output read back as
                                 plain CSS (`SourceFile::css_bytes`); oracle: the re-read succeeds and reproduces the
                                 first output up to blank lines.  (No model opinion.)
+  c09id <f|r> <cp> <0|1>        harness: expanded output of plain css `a{b:[x]\\<hex>[ ]z}`; model: `Writer.Ident.normFirst/normRest`
+                                (lean/RsassModel/Writer/Ident.lean) — the identifier escape normaliser, exhaustive below U+0100.
   c09str <hex utf-8 value>      harness: `CssString{value, Double}.to_string()` and whether the reader accepts it;
                                 model: `Writer.Str.showQ` / `readRaw` (lean/RsassModel/Writer/CssString.lean).
 """
@@ -161,6 +163,37 @@ def gen(tier, rng, boost=1):
     for sym in ["🎉", "→", "€", "\u2028", "♥"]:
         for src in ("a{b:x" + sym + "}", "a{x" + sym + ":c}", ".c" + sym + "{b:c}"):
             yield Case("\t".join(["c09rt", "scss", hx(src)]), "ident-symbol")
+    # identifiers with hex escapes at every class boundary of the escape normaliser (C1 controls, NBSP, 0x7f/0x80/0xa0/0xa1,
+    # other non-printables), with and without the trailing space, in values, property names, selectors and at-rule names
+    cps = [0x1, 0x8, 0x1f, 0x7f, 0x80, 0x85, 0x90, 0x9f, 0xa0, 0xa1, 0xa2, 0xad, 0xb5, 0xd7, 0xff, 0x2028, 0x200b, 0xe000, 0xfeff, 0x1f389]
+    for _ in range((60 if tier == "quick" else 1500) * boost):
+        def esc():
+            c = rng.choice(cps) if rng.random() < 0.85 else rng.randint(0x80, 0xa1)
+            return "\\%x" % c + rng.choice([" ", " ", ""])
+        def eid(head):
+            # the escape is followed by a non-hex-digit letter so that it ends where intended also without the space
+            return head + esc() + rng.choice(["x", "y", "z", "w-q", "_"]) + (esc() + "z" if rng.random() < 0.3 else "")
+        k = rng.random()
+        if k < 0.35:
+            src = ".box { grid-area: " + eid("main") + "; font-family: " + eid("caf") + ", serif; }\n"
+        elif k < 0.55:
+            src = ".box { " + eid("x") + ": z; color: red; }\n"
+        elif k < 0.75:
+            src = "." + eid("k") + " > #" + eid("i") + " { a: b; }\n"
+        elif k < 0.85:
+            src = "@keyframes " + eid("k") + " { from { a: b; } to { a: c; } }\n"
+        elif k < 0.93:
+            src = "@font-face { font-family: " + eid("f") + "; }\n"
+        else:
+            src = "@" + eid("f") + " { a { b: c; } }\n"
+        yield Case("\t".join(["c09rt", "scss", hx(src)]), "ident-escape")
+    # the identifier escape normaliser of the plain-css reader against the model (exhaustive below U+0100)
+    for c in list(range(0, 0x100)) + [0x100, 0x2028, 0xd7ff, 0xe000, 0xfffd, 0x10000, 0x10ffff] + \
+            [rng.randint(0x100, 0x10ffff) for _ in range(40 if tier == "quick" else 2000)]:
+        if 0xd800 <= c <= 0xdfff:
+            continue
+        for pos in "fr":
+            yield Case("c09id\t%s\t%d\t%s" % (pos, c, rng.choice("01")), "ident-normaliser")
     # the string layer against the model: arbitrary code points
     pool = [0xE000, 0xE001, 0xF8FF, 0xF0000, 0xFFFFD, 0x100000, 0x10FFFD, 0xE000, 34, 34, 39, 32, 9, 48, 57, 97, 102, 65, 70, 103, 122,
             0xE9, 0x65E5, 0x1F389, 0xDFFF + 1, 0xF900, 0xEFFFF, 0xFFFFE, 0x7F, 0x80, 0xA0, 45, 123, 125, 59, 47, 42, 40, 41]
@@ -187,6 +220,10 @@ def judge(case, impl, asis, spec):
         return Verdict(True, None)
     if f[0] == "c09rt":
         return Verdict(True, oracle_rt(impl))
+    if f[0] == "c09id":
+        why = None if (spec is None or impl == spec) else \
+            "an escaped code point of an identifier is not written as the round-trip-proved normaliser writes it"
+        return Verdict(asis is None or impl == asis, why)
     # c09str: correspondence with the model; property: the text rsass writes for a string is accepted by its reader
     parts = impl.split("|")
     why = None if parts[-1] == "ok" else "the quoted string rsass writes is rejected by its plain-CSS reader"
@@ -196,6 +233,8 @@ def judge(case, impl, asis, spec):
 def explained(case, r, live):
     ids = {f["id"] for f in live}
     f = case.lines[0].split("\t")
+    if f[0] == "c09id":
+        return False
     if f[0] == "c09str":
         return bool(r["v"].corr_ok and live and r["asis"][0] is not None and r["asis"] != r["spec"])
     # round trip (no model): C09-reader-escaped-quote covers exactly: the first output contains `\"` inside a
